@@ -204,7 +204,8 @@ def make_doc(ctx, idx):
     if idx % 5 == 2:
         names = names + gs.KEYWORD_NAMES
     gen = gen_docs.DocGen(rng, serial, names=names, hostile_descriptions=idx % 3 == 0,
-                          f22_titles=0.3 if idx % 10 == 9 else 0.0, untitled=0.0 if idx % 2 else 0.5)
+                          f22_titles=0.3 if idx % 10 == 9 else 0.0, untitled=0.0 if idx % 2 else 0.5,
+                          coincident_names=0.5 if idx % 7 == 3 else 0.0)
     doc = gen.doc()
     doc["values_seed"] = rng.getrandbits(32)
     return doc
@@ -225,8 +226,11 @@ def one_doc(ctx, sut, fpm, idx, given=None, generated=False):
     if idx % 5 == 2:
         names = names + gs.KEYWORD_NAMES
     gen = gen_docs.DocGen(rng, serial, names=names, hostile_descriptions=hostile,
-                          f22_titles=0.3 if f22_mode else 0.0, untitled=0.0 if idx % 2 else 0.5)
+                          f22_titles=0.3 if f22_mode else 0.0, untitled=0.0 if idx % 2 else 0.5,
+                          coincident_names=0.5 if idx % 7 == 3 else 0.0)
     doc = given or gen.doc()
+    if gen.coincident_used:
+        ctx.count("doc.member_names_coinciding_with_module_names", gen.coincident_used)
     if given is not None and not generated:
         ctx.count("doc.sibling_variant_same_process")
     import random as _random  # pylint: disable=import-outside-toplevel
